@@ -26,6 +26,10 @@ fn report(vios: &mut VioSet, e: &Enc, source: Source, repl: bool, units: &[u32],
 }
 
 fn one(e: &Enc, source: Source, repl: bool, units: &[u32], stats: &mut Stats, vios: &mut VioSet) {
+    one_cap(e, source, repl, units, None, stats, vios)
+}
+
+fn one_cap(e: &Enc, source: Source, repl: bool, units: &[u32], cap: Option<usize>, stats: &mut Stats, vios: &mut VioSet) {
     stats.evaluations += 1;
     let u16s = crate::xenc::units16(units);
     let scalars = utf16_to_scalars(&u16s);
@@ -37,12 +41,12 @@ fn one(e: &Enc, source: Source, repl: bool, units: &[u32], stats: &mut Stats, vi
     let run = match source {
         Source::Utf8 => {
             let s = units_to_utf8(units);
-            encode_chunks_ample(e, source, repl, &[&s], &[], true)
+            encode_chunks_cap(e, source, repl, &[&s], &[], true, cap)
         }
-        Source::Utf16 => encode_chunks_ample(e, source, repl, &[], &[&u16s], true),
+        Source::Utf16 => encode_chunks_cap(e, source, repl, &[], &[&u16s], true, cap),
     };
     {
-        let mut f = Fnv::new().b(source as u8).b(repl as u8);
+        let mut f = Fnv::new().b(source as u8).b(repl as u8).u(cap.map(|c| c as u64 + 1).unwrap_or(0));
         for &u in units {
             f = f.u(u as u64);
         }
@@ -110,6 +114,32 @@ pub fn run(tier: Tier) -> (Stats, VioSet) {
                         one(e, Source::Utf16, repl, &[hi_s, 0x3042], &mut stats, &mut vios);
                         one(e, Source::Utf16, repl, &[hi_s, hi_s, lo_s], &mut stats, &mut vios);
                         one(e, Source::Utf16, repl, &[0x41, lo_s, 0x41], &mut stats, &mut vios);
+                    }
+                }
+            }
+            // ASCII run of every length 0..=100 + one non-ASCII scalar + ASCII suffix, with the
+            // output limited per call (exercises the 16/32-unit accelerated copies at every offset)
+            let tails: [u32; 5] = [0xE9, 0x3042, 0x1F4A9, 0x80, 0xFFFF];
+            for n in 0..=100usize {
+                let run: Vec<u32> = (0..n).map(|i| (b'a' + (i % 26) as u8) as u32).collect();
+                for &t in &tails {
+                    for suf in [0usize, 20] {
+                        let mut text = run.clone();
+                        text.push(t);
+                        text.extend((0..suf).map(|i| (b'A' + (i % 26) as u8) as u32));
+                        for source in [Source::Utf8, Source::Utf16] {
+                            for repl in [false, true] {
+                                let min = if repl { 14 } else { 4 };
+                                for cap in [None, Some(n + 4), Some((n / 2).max(min)), Some(64), Some(min), Some(n.max(min)), Some(48)] {
+                                    if let Some(c) = cap {
+                                        if c < min {
+                                            continue;
+                                        }
+                                    }
+                                    one_cap(e, source, repl, &text, cap, &mut stats, &mut vios);
+                                }
+                            }
+                        }
                     }
                 }
             }
